@@ -103,7 +103,13 @@ pub fn check_hypotheses(trace: &Trace, stream: &[u8]) -> Result<(), String> {
 				if !(cs <= a && a <= n) {
 					return Err(format!("EventsMonotone: event {i} DS start {a} not in [{cs}, {n}]"));
 				}
-				cs = a;
+				// `spaceStart`: the chunk keeps the spaces in front of the event,
+				// not reaching behind the previous cut.
+				let mut start = a;
+				while start > cs && stream[start as usize - 1] == b' ' {
+					start -= 1;
+				}
+				cs = start;
 				in_doc = true;
 			}
 			DOC_END => {
@@ -169,9 +175,15 @@ const HAND_DOCS: &[&str] = &[
 	"a: 1 # trailing comment\n",
 	"- - - x\n",
 	"\"multi\n  line\"\n",
+	"  a: 1\n  b: 2\n",
+	" - 1\n - 2\n",
+	"    deep:\n      - x\n",
+	"   indented scalar\n",
+	"  [flow, seq]\n",
+	" \t tab after space\n",
 ];
 
-const FIRST_INTRO: &[&str] = &["", "", "---\n", "--- # c\n", "%YAML 1.2\n---\n", "# leading comment\n", "%TAG !e! tag:e.com,2000:\n---\n", "\n\n", "--- "];
+const FIRST_INTRO: &[&str] = &["", "", " ", "   ", "\n  ", "# c\n ", "---\n", "--- # c\n", "%YAML 1.2\n---\n", "# leading comment\n", "%TAG !e! tag:e.com,2000:\n---\n", "\n\n", "--- "];
 const SEPARATORS: &[&str] = &[
 	"---\n",
 	"---\n",
@@ -184,6 +196,11 @@ const SEPARATORS: &[&str] = &[
 	"...\n",
 	"...\n...\n---\n",
 	"---\n---\n",
+	"...\n  ",
+	"...\n ",
+	"...\n# c\n   ",
+	"... \n    ",
+	"---  ",
 ];
 const MALFORMED: &[&str] = &["a: [1, 2\n", "a: b: c\n", "\t- x\n", "{a: 1\n", "- \"unterminated\n", "a: *\n", "%BAD\n", "a: 1\n b: 2\n", "&a &b c\n", "\u{1}\n", "x: \u{0}\n", "[a, b]]\n"];
 
@@ -327,6 +344,10 @@ fn stream_case(out: &mut Out, rng: &mut Rng, bytes: &[u8], fail_at: Option<usize
 			"",
 			format!("{what}; stream={} trace={} (the chunker theorems assume this of every libyaml trace)", hex(bytes), trace_field(&trace, None)),
 		);
+	}
+	let kept_spaces = trace.0.iter().any(|&(k, a, _)| k == DOC_START && a > 0 && (a as usize) <= seen.len() && seen[a as usize - 1] == b' ');
+	if kept_spaces {
+		out.count("trace.document_start_preceded_by_spaces");
 	}
 	out.count(if all_offsets_monotone(&trace) { "trace.all_offsets_monotone" } else { "trace.some_inner_offset_goes_back(harmless)" });
 	out.count(&format!("stream.{label}.{}", if trace.1 { "parser_error" } else { "complete" }));
